@@ -168,6 +168,34 @@ Definition impl_recheck : bool := true.
 Definition after_kill (c : kcfg) (e : Z * bool) : bool := kill_passed c (fst e).
 Definition count_after_kill (c : kcfg) (l : list (Z * bool)) : Z := len (filter (after_kill c) l).
 
+(* ------------------------------------------------------------------ the sleep ticker of wait() *)
+(* s.tick is a time.Ticker under the module's `go 1.18` semantics: its channel has a buffer of ONE;
+   a tick that fires while nobody receives stays in the buffer (later ones are dropped), and Reset
+   does NOT clear it.  t_next = the instant of the next fire. *)
+Record ticker := mkT { t_pending : bool; t_next : Z; t_period : Z }.
+
+(* time passes until `now` with nobody receiving *)
+Definition tick_advance (t : ticker) (now : Z) : ticker :=
+  if t_next t <=? now
+  then mkT true (t_next t + ((now - t_next t) / t_period t + 1) * t_period t) (t_period t)
+  else t.
+(* `for len(s.tick.C) > 0 { <-s.tick.C }` *)
+Definition tick_drain (t : ticker) : ticker := mkT false (t_next t) (t_period t).
+(* s.tick.Reset(w) at instant now *)
+Definition tick_reset (t : ticker) (now w : Z) : ticker := mkT (t_pending t) (now + w) w.
+(* `<-s.tick.C` started at instant now: the instant it returns *)
+Definition tick_recv (t : ticker) (now : Z) : Z := if t_pending t then now else Z.max now (t_next t).
+
+(* the sleep section of wait() entered at instant now with the computed delay w: drain (or not),
+   Reset(w), receive; the result is the instant wait() returns when nothing else wakes it *)
+Definition wait_wakes (drain : bool) (t : ticker) (now w : Z) : Z :=
+  let t1 := tick_advance t now in
+  let t2 := if drain then tick_drain t1 else t1 in
+  tick_recv (tick_reset t2 now w) now.
+
+(* the implementation as it is in /repo: the drain loop is there *)
+Definition impl_drain : bool := true.
+
 (* ------------------------------------------------------------------ Profile swap (listen) *)
 (* the timing values a client Session runs with *)
 Record settings := mkS { s_sleep : Z; s_jitter : Z; s_kill : option Z; s_work : option rule }.
@@ -202,7 +230,11 @@ Inductive case :=
 | CKill (c : kcfg) (t0 : Z) (script : list item) (obs : list kev)
 (* a Profile swap in the real listen loop: settings before, the Profile's answers, settings
    observed after, the draws of the next wait() and the delay it computed *)
-| CSwap (old : settings) (p : pvals) (obs : settings) (gate d sign delay : Z).
+| CSwap (old : settings) (p : pvals) (obs : settings) (gate d sign delay : Z)
+(* real time: a ticker armed with `sleep`, then a contact of `contact` ns during which nobody
+   receives, then wait() with delay `sleep`; gaps = the measured ns between the end of an attempt and
+   the start of the next.  Only "not (much) earlier than the model says" is compared. *)
+| CTick (sleep contact : Z) (gaps : list Z).
 
 Definition ev_eqb (a : Z * bool) (b : kev) : bool := (fst a =? ke_t b) && Bool.eqb (snd a) (ke_notice b).
 Fixpoint evs_eqb (a : list (Z * bool)) (b : list kev) : bool :=
@@ -232,6 +264,10 @@ Definition check (c : case) : bool :=
   | CWait c dl now cl now' cl' =>
       let '(n2, c2) := wait_step impl_recheck c dl now cl in (n2 =? now') && Bool.eqb c2 cl'
   | CKill c t0 sc obs => evs_eqb (client impl_recheck c sc t0) obs
+  | CTick sl ct gaps =>
+      let now := sl + ct in
+      let m := wait_wakes impl_drain (mkT false sl sl) now sl - now in
+      forallb (fun g => 8 * m <=? 10 * g) gaps
   | CSwap o p obs g d sg dl =>
       settings_eqb (swap_settings o p) obs && (delay_with (swap_settings o p) g d sg =? dl)
   end.
